@@ -37,7 +37,7 @@ ENGINE_MODULES = ("base_interpreter", "interpreter", "sync_interpreter", "helper
 
 
 class CallSite:
-    __slots__ = ("call", "func", "kind", "targets", "callee_text")
+    __slots__ = ("call", "func", "kind", "targets", "callee_text", "recv")
 
     def __init__(self, call: ast.Call, func: FuncInfo, kind: str, targets: List[FuncInfo], callee_text: str):
         self.call = call
@@ -45,6 +45,12 @@ class CallSite:
         self.kind = kind          # resolved | dynamic | external
         self.targets = targets
         self.callee_text = callee_text
+        fn = call.func
+        if isinstance(fn, ast.Attribute):
+            rt = dotted(fn.value)
+            self.recv = "self" if rt in ("self", "cls") or (isinstance(fn.value, ast.Call) and dotted(fn.value.func) == "super") else "other"
+        else:
+            self.recv = "name"
 
     @property
     def line(self) -> int:
@@ -247,6 +253,26 @@ class Resolver:
             for t in self.callees(f, view, include_closures):
                 if t.qualname not in out:
                     work.append((t, f.qualname))
+        return out
+
+    def self_closure(self, roots: Iterable[FuncInfo], view: Optional[str]) -> Dict[str, FuncInfo]:
+        """Functions reachable through calls on the *same object* only (``self.m()``,
+        ``super().m()``, and closures / module functions called by bare name)."""
+        out: Dict[str, FuncInfo] = {}
+        work = list(roots)
+        while work:
+            f = work.pop()
+            if f.qualname in out:
+                continue
+            out[f.qualname] = f
+            for s in self.callsites(f, view):
+                if s.recv in ("self", "name"):
+                    for t in s.targets:
+                        if t.qualname not in out and t.name != "__init__":
+                            work.append(t)
+            for t in f.nested.values():
+                if t.qualname not in out:
+                    work.append(t)
         return out
 
     @staticmethod
